@@ -35,6 +35,17 @@ def C(level, text, design, note, technique):
 CORR = "hand-written Gallina model tied to the code by a correspondence check (the same definitions run at binary64 inside coqc on the inputs the C++ ran on; discrete outputs equal, doubles within 2^-36); "
 
 CHECKS = {
+ "C01": C("proof",
+    "Chain of theorems over R: ALM Converged <=> last inner solve Converged with eps <= tolerance and ||e||inf <= dual tolerance (model of alm.tpp, all inner-outcome scripts); inner Converged <=> eps <= tol (generated chain); "
+    "ApproxKKT residual <= tol => -grad psi(x_hat) within tol of the normal cone of C at x_hat componentwise (any box, any step size); g(x_hat) - e in D so dist(g, D) <= |e|; positive (negative) multiplier only where g - ub = e (g - lb = e); the library's KKT-error stationarity is a lower bound of that distance. "
+    "Oracle: for every ALM run returning Converged over all 10 shipped stacks the three KKT quantities are recomputed from f, grad f, g, grad g*y and the boxes only and compared with the tolerances and with compute_kkt_error; prox-step kernel correspondence on the run records.",
+    "4/C01", TB_REALS + CORR + "the per-solver loop invariants (x_hat, p, y_hat, grad psi(x_hat) consistent at the stop check) are not proved for whole loops: tied per run by the C03/C05/C06 correspondences and by the oracle; l1 off.",
+    "Coq proof chain (ALM model, generated chain, normal-cone lemmas) + KKT recomputation oracle on real ALM runs"),
+ "C02": C("proof",
+    "PARTIAL. Proved for all strongly convex QPs, boxes and dimensions: an approximate KKT pair with tolerances (eps, delta) - what Converged certifies (C01) - satisfies mu|x-x*|^2 <= eps|x-x*|_1 + delta|y-y*|_1 against the exact KKT pair (monotonicity of box normal cones, Hoelder). "
+    "NOT proved: that every stack does reach Converged within the limits (liveness); explored on the implementation: every shipped stack on generated well-posed QPs must converge and meet the bound against (x*, y*) from an independent active-set solve verified by its KKT conditions.",
+    "4/C02", TB_REALS + "liveness by exploration only (stated in the evidence); reference solutions from Python active-set enumeration accepted only with KKT residual < 1e-8; known findings: ALM over the no-op direction (plain forward-backward) stalls on some problems.",
+    "Coq proof of the distance bound + exploration of convergence of all stacks against an independent reference"),
  "C03": C("proof",
     "Theorems over R about the exit-block / multiplier kernels (SolverKernels.v): x written back is the projected step hence in C; err_z = g - Pi_D(g + y/Sigma); y = y_in + Sigma e; multiplier signs and complementarity; "
     "overwrite policy (Converged, Interrupted or always_overwrite) and bit-for-bit no-overwrite. Tied to PANOC/ZeroFPR/PANTR/FISTA by teacher-forced correspondence on the real runs (exit block compared exactly) and by an oracle recomputing the relations from g and the boxes for every exit status, budget 0/1/.., both always_overwrite values, NaN, plateau, stop scenarios.",
